@@ -7,9 +7,20 @@ Cases == JsonDeserialize(IOEnv.TRACE_FILE)
 VARIABLES i
 Init == i \in 1..Len(Cases)
 Next == FALSE /\ UNCHANGED i
+\* a case run for real (no recorder): the started root component reports its class, its constructor arguments, the thread
+\* limit it finds and the backend it runs on
+RealWhy(c, e) ==
+  IF e.kind = "error" THEN (IF c.obs.kind = "error" THEN "" ELSE "real-run-started-although-the-command-must-fail:" \o e.why)
+  ELSE IF c.obs.kind # "launch" THEN "real-run-failed-although-the-command-must-start"
+  ELSE IF ~EqV(c.obs.type, e.type) THEN "real-run-started-the-wrong-root-component"
+  ELSE IF ~EqD(c.obs.comp, e.comp) THEN "real-run-constructed-the-root-component-with-the-wrong-arguments"
+  ELSE IF "max_threads" \in DOMAIN e.top /\ e.top["max_threads"].t = "i" /\ c.obs.max_threads # e.top["max_threads"].v THEN "real-run-max_threads-not-applied"
+  ELSE IF c.obs.backend # (IF "backend" \in DOMAIN e.top THEN e.top["backend"].v ELSE "asyncio") THEN "real-run-on-the-wrong-backend"
+  ELSE ""
 Why(c) ==
   LET e == RunPipeline(c.files, c.sets, c.flag, c.env) IN
   IF e.kind = "unspecified" THEN "unspecified"
+  ELSE IF "real" \in DOMAIN c THEN RealWhy(c, e)
   ELSE IF e.kind = "error" THEN (IF c.obs.kind = "error" THEN "" ELSE "started-although-the-command-must-fail:" \o e.why)
   ELSE IF c.obs.kind # "launch" THEN "failed-although-the-command-must-start"
   ELSE IF ~EqV(c.obs.type, e.type) THEN "wrong-root-component-type"
